@@ -162,7 +162,7 @@ fn gen_scenario(seed: u64, index: u64, focus: &str, jitter: bool) -> Scenario {
     }
     let mut fns = vec![];
     for d in ds {
-        let cap = d.limit.unwrap_or(2);
+        let cap = d.limit.unwrap_or(2).min(5);
         // C03/C09: bounded caches take part with no more distinct keys than their limit, so that
         // nothing can be evicted and "computed once" still applies
         let n = if (matches!(focus, "C03" | "C09" | "C13") || (focus == "C14" && index % 2 == 0)) && d.limit.is_some() { cap.min(d.nslots as usize).max(1) } else { (cap + 1 + rng.usize(2)).min(d.nslots as usize).max(1) };
@@ -737,7 +737,7 @@ fn run_scenario(rep: &mut Report, sc: &mut Scenario, seed: u64, mode: &str, focu
         // must hold throughout.
         if let Some(n) = d.limit {
             let old: BTreeSet<String> = l.iter().cloned().collect();
-            let fresh: Vec<u32> = (0..d.nslots).filter(|s| !f.slots.contains(s)).take(n + old.len() + 1).collect();
+            let fresh: Vec<u32> = (0..d.nslots).filter(|s| !f.slots.contains(s)).take(n.min(64) + old.len() + 1).collect();
             let ordered_ok = d.ttl.is_none() && d.max_memory.is_none() && !sc.has_invalidation[fi] && sc.prelude.is_empty();
             // per old key: interval of its last use / last store, and whether it certainly has (no) hits
             let mut last_use: HashMap<&String, (u64, u64)> = HashMap::new();
@@ -765,7 +765,7 @@ fn run_scenario(rep: &mut Report, sc: &mut Scenario, seed: u64, mode: &str, focu
                     }
                 }
             }
-            if fresh.len() == n + old.len() + 1 {
+            if n.checked_add(old.len() + 1) == Some(fresh.len()) {
                 let mut cur: BTreeSet<String> = old.clone();
                 for s in &fresh {
                     let co = (d.call)(*s);
